@@ -64,18 +64,23 @@ Fixpoint digits_value (s : bytes) (acc : N) : option N :=
               else None
   end.
 Definition usize_from_str (s : bytes) : option N :=
-  let d := match s with 43 :: r => r | _ => s end in
+  let d := match s with
+           | c :: r => if c =? 43 then r else s          (* [b'+', rest @ ..] => rest *)
+           | [] => s
+           end in
   match d with
   | [] => None                      (* "" , "+" *)
-  | _ => digits_value d 0
+  | _ :: _ => digits_value d 0
   end.
 
 (* fn parse_index(s: &str) -> Option<usize> *)
 Definition parse_index (s : bytes) : option N :=
   match s with
-  | 43 :: _ => None                                          (* s.starts_with('+') *)
-  | 48 :: _ :: _ => None                                     (* s.starts_with('0') && s.len() != 1 *)
-  | _ => usize_from_str s
+  | [] => usize_from_str s
+  | c :: r =>
+    if c =? 43 then None                                     (* s.starts_with('+') *)
+    else if (c =? 48) && negb (match r with [] => true | _ => false end) then None   (* s.starts_with('0') && s.len() != 1 *)
+    else usize_from_str s
   end.
 
 (* ---- slice::get(i) for a usize i (no detour through unary numbers: indices go up to 2^64-1) ------------- *)
